@@ -150,6 +150,20 @@ CLAIMED['C14'] = dict(
     note=NOTE_COMMON + 'Python object plumbing of MultiSelector/WrappedWireVector is exercised, not modelled.',
     technique='Lean 4 proof by induction on the select bits / shift stages + exhaustive shape-grid correspondence')
 
+CLAIMED['C07'] = dict(
+    text='FULL over the elaboration model. Lean theorems: the conjunction _current_select builds equals the statement\'s '
+         'definition of an active branch (guard holds at every enclosing level, no earlier sibling since the last otherwise '
+         'taken); otherwise resets the chain; two assignments that pass the conflict test are never both active; for an '
+         'accepted program the select chain yields the rhs of the unique active assignment wherever it sits, and the '
+         'default when none is active. Correspondence: random condition trees (depth to 4, chains to 5, otherwise '
+         'anywhere, shared predicates, wire/register/memory targets, defaults=) elaborated by the real code: accept/reject '
+         'against the syntactic rule and against the Lean model; accepted programs evaluated in the Lean Spec model for 8 '
+         'cycles against an interpreter of the statement.',
+    design='4 C07',
+    note=NOTE_COMMON + 'Global module state of conditional.py and the with-statement plumbing are exercised, not modelled; '
+         'the memory branch of _finalize (combined enable/address/data chains) is checked by correspondence only.',
+    technique='Lean 4 proof (refinement of the elaborated select chain to the unique-active-branch spec) + differential correspondence')
+
 NOT_YET = {}
 
 
